@@ -102,8 +102,11 @@ func schemeInScope(fn *ssa.Function) bool {
 			return true
 		}
 	}
-	if fn.Signature.Recv() != nil && len(fn.Params) > 0 && colorFieldIndex(fn.Params[0].Type()) >= 0 {
-		return true
+	// the receiver, or any struct (pointer) parameter, that carries a scheme
+	for _, p := range fn.Params {
+		if colorFieldIndex(p.Type()) >= 0 {
+			return true
+		}
 	}
 	return false
 }
@@ -117,7 +120,7 @@ func ruleColor(c *Ctx) {
 	c.Doc(RB, "where a caller's scheme is in scope (ColorScheme parameter or receiver carrying one) no package-level default scheme is stored or passed and no default-colour constructor is called")
 	c.Doc(RC, "functions without a scheme in scope pass/store only the package-level schemes (plain Encode: ColorScheme16, black on white)")
 	c.Doc(RD, "every allocation of a struct type carrying a ColorScheme field has that field stored in the allocating function (a zero scheme has a nil model)")
-	c.Floor(RA, 19)
+	c.Floor(RA, 12)
 	c.Floor(RC, 10)
 	c.Floor(RD, 6)
 
